@@ -173,6 +173,18 @@ StepUntilEffective(c, S, acc, fuel) ==
         THEN [life |-> r.life, flags |-> r.flags, m |-> [r.m EXCEPT !.atoms = atoms], ret |-> r.ret]
         ELSE StepUntilEffective(c, S2, atoms, fuel - 1)
 
+(* Executors observed per run (Promela model under spin): iterate StepOf until the machine is  *)
+(* idle or finished, concatenating the atoms of all calls.                                     *)
+RECURSIVE StepUntilQuiescent(_, _, _, _)
+StepUntilQuiescent(c, S, acc, fuel) ==
+    LET r == StepOf(c, S)
+        atoms == acc \o r.m.atoms
+        S2 == [life |-> r.life, flags |-> r.flags, m |-> r.m]
+    IN  IF r.ret \in {"IDLE", "FINISHED", "CANCELLED"} \/ fuel = 0
+        THEN [life |-> r.life, flags |-> r.flags, m |-> [r.m EXCEPT !.atoms = atoms],
+              ret |-> IF fuel = 0 THEN "LIMIT" ELSE r.ret]
+        ELSE StepUntilQuiescent(c, S2, atoms, fuel - 1)
+
 \* the current state as a record
 Cur == [life |-> life, flags |-> flags, m |-> m]
 
